@@ -20,6 +20,9 @@
   * The recursion `to_dict -> nested to_dict` is tied with a fuel counter (`depth = 4`, the nesting
     Result > FuncLoops > LoopResult > VResult); the one-level functions `toDict1` / `fromDict1` are
     the transcriptions of the Python methods, parametrised by the function used for nested objects.
+    That the fuel is enough is proved: `toDict cls o = toDict1 toDict cls o` and
+    `fromDict cls d = fromDict1 notNone fromDict cls d` (Mwp/Lemmas/ResultThms.lean,
+    `toDict_unfold` / `fromDict_unfold`).
 -/
 import Mwp.Gen.Result
 import Mwp.Model.Monomial
